@@ -8,4 +8,7 @@ func ruleC08(prog *Program, rep *Report) {
 	ruleReturnAlias(prog, rep, "C08")
 	ruleGlobals(prog, rep)
 	rulePreRegister(prog, rep)
+	// an instance taken from a pool was last used by another caller: whatever an entry does not reset is
+	// state shared between goroutines
+	ruleEntryParity(prog, rep)
 }
